@@ -171,7 +171,17 @@ func runC19(c *Ctx) *Replay {
 		return nil
 	}
 	p := ps[r.Intn(len(ps))]
-	valid := p.Schema.PrintLayout(schema.Layout{Indent: "    ", OneLine: r.Chance(1, 4)})
+	crlf := r.Chance(1, 3)
+	valid := p.Schema.PrintLayout(schema.Layout{Indent: "    ", OneLine: r.Chance(1, 4), CRLF: crlf, Comments: r.Bool(), Block: r.Bool(),
+		Trailing: []int{0, 0, 1, 2}[r.Intn(4)]})
+	if r.Chance(1, 4) {
+		// a string literal that spans lines: its line break is part of the value
+		eol := "\n"
+		if crlf {
+			eol = "\r\n"
+		}
+		valid += "const string kSpansLines = \"first" + eol + "second" + eol + "\";" + eol
+	}
 	sc := Scenario{Kind: "cli", Prog: p.ID, Files: map[string]string{}, Extra: map[string]string{}}
 	class := []string{"valid", "valid", "syntax-error", "validation-error", "import", "import-missing"}[r.Intn(6)]
 	text := valid
